@@ -246,6 +246,9 @@ func Nitro(wdt float64, subd int, zeit int, g *GlobalVarsMain, l *NitroSharedVar
 		var NFOSUM, NAOSUM, nmifosum, nmiaosum, CSUM float64
 		if g.EINT[g.NTIL.Index] > 0 {
 			mixtief := math.Round(g.EINT[g.NTIL.Index] / g.DZ.Num)
+			if mixtief > float64(g.N) {
+				mixtief = float64(g.N) // never mix into layers below the profile
+			}
 
 			layerList := make(map[string]interface{})
 			for z := 0; z < int(mixtief); z++ {
